@@ -752,7 +752,10 @@ def run_values(case):
 
 
 # ------------------------------------------------------------------------------------------------ section diag
-AFFINE = [(2.0, 0.0), (-1.0, 0.0), (4.0, 8.0), (0.5, -2.0)]
+# all maps are exact in binary on the chain grids; the last three move the chains to very small / very large scales
+# (an absolute tolerance somewhere in the diagnostics is not scale invariant)
+AFFINE = [(2.0, 0.0), (-1.0, 0.0), (4.0, 8.0), (0.5, -2.0),
+          (2.0 ** -20, 0.0), (2.0 ** -40, 2.0 ** -38), (2.0 ** 30, -2.0 ** 31)]
 DIAG_VALUES = {'int': [0, 1, 3], 'mix': [-1.5, 0.0, 0.25, 2.0]}
 
 
@@ -1056,5 +1059,5 @@ def _run(ctx):
         'truncation statistic rho_t is within 1e-9 of zero at or before the truncation lag are skipped and counted; '
         'zero pooled variance (ESS) / zero within variance (R-hat) are skipped and counted; for odd chain length the '
         'split may drop the last, middle or first element; a single chain uses B = 0' % RTOL,
-        'affine maps (2,0),(-1,0),(4,8),(0.5,-2) are exact in binary on the chain grids {0,1,3} and {-1.5,0,0.25,2}',
+        'affine maps (2,0),(-1,0),(4,8),(0.5,-2),(2^-20,0),(2^-40,2^-38),(2^30,-2^31) are exact in binary on the chain grids {0,1,3} and {-1.5,0,0.25,2}',
     ]
